@@ -139,7 +139,7 @@ func TestGovcBounded_global_window_trigger(t *testing.T) {
 						state[g] = &acc{}
 					}
 				}
-				deadline := time.Now().Add(2 * time.Second)
+				deadline := time.Now().Add(15 * time.Second)
 				for time.Now().Before(deadline) {
 					mu.Lock()
 					n := len(got)
